@@ -93,6 +93,17 @@ for f in os.listdir(seed):
     if f != 'meta.json' and os.path.isfile(os.path.join(seed, f)):
         if os.path.abspath(seed) != os.path.abspath(out_dir):
             shutil.copy(os.path.join(seed, f), out_dir)
+old = os.path.join(out_dir, 'meta.json')
+if os.path.exists(old):
+    o = json.load(open(old))
+    hist = o.get('history', [])
+    prev = o.get('detected_by')
+    if prev and (not hist or hist[-1] != prev):
+        hist.append(prev)
+    meta['history'] = hist
+    for k in ('strengthened',):
+        if k in o and k not in meta:
+            meta[k] = o[k]
 meta['confirmed'] = bool(res.get('confirmed'))
 meta['what_was_run'] = ran
 meta['detected_by'] = '; '.join(detected) if detected else 'NOT DETECTED'
